@@ -390,6 +390,10 @@ class ScenModel:
         b.check_pre()
         b.check_inv()
 
+    def guards_inv(self):
+        b = BehaviorModel(self.w, {self.name: {"inv": self.d.get("inv", []), "body": []}}, self.name)
+        b.check_inv()
+
     def prepare(self):
         """run the setup block"""
         self.guards()
@@ -422,7 +426,7 @@ class ScenModel:
         else:
             self.limit_steps = None
         if self.d.get("compose") is not None:
-            defs = {self.name: {"body": self.d["compose"]}}
+            defs = {self.name: {"body": self.d["compose"], "inv": self.d.get("inv", [])}}
             bm = ComposeModel(self.w, defs, self.name, "compose", self)
             bm.sim = self.sim
             self.compose = bm.block(self.d["compose"])
@@ -441,6 +445,10 @@ class ScenModel:
         if self.limit_steps is not None and self.elapsed >= self.limit_steps:
             return self.stop("time limit")
         self.elapsed += 1
+        if self.compose is None and not self.subs and self.d.get("inv"):
+            # (1c) a scenario that is not running a sub-scenario has its invariants checked every step
+            # (with a compose block this happens when the block is resumed)
+            self.guards_inv()
         if self.compose is not None:
             try:
                 a = next(self.compose)[0]
